@@ -410,6 +410,8 @@ class Pyd:
                 # smart-mode union: accepted iff some member accepts
                 return Or(self.acc(m, node, mod) for m in members)
             raise Unsupported(ast.unparse(ann))
+        if isinstance(ann, ast.Constant) and ann.value is None:
+            return node.is_null()  # NoneType: only None validates
         if isinstance(ann, ast.Name):
             name = ann.id
             if name == "Any":
